@@ -67,6 +67,17 @@ def _rows(m, drops, salt=0):
     return rows
 
 
+_DENSE = {}
+
+
+def _dense(m, shot):
+    if "hr" not in _DENSE:
+        _DENSE["hr"] = m.HitResult(shot, _rows(m, [0] * 33, 0) if False else [
+            impl.make_row(time=float(i), distance=m.Unit.Foot(i / 4.0), target_drop=m.Unit.Foot(-0.01 * i), height=m.Unit.Foot(-0.01 * i), flag=8)
+            for i in range(33)], True)
+    return _DENSE["hr"]
+
+
 def replay_spec_cases(chk, cases):
     m = impl.pb()
     U = m.Unit
@@ -100,6 +111,11 @@ def replay_spec_cases(chk, cases):
                 chk.stratum("range_as_bare_number")
             else:
                 at_arg = U.Foot(r)
+            if (sum(d) + t + 2 * h) % 3 != 0:
+                # ANOTHER result - a much denser card of another shot (rows every quarter foot) - is asked at the same range just
+                # before: whatever a look-up leaves behind (an index, a hint where to resume) belongs to that result, not to this one
+                chk.stratum("another_denser_result_asked_just_before")
+                impl.outcome(_dense(m, shot).get_at_distance, U.Foot(max(0.0, min(r, 8.0))))
             if (sum(d) + t + h) % 2 == 0:
                 # the same result object was asked other questions first whose arguments LOOK like this one (equal number, equal
                 # raw magnitude) but mean another distance: x inches before the bare number x, the bare number x under another
@@ -259,7 +275,7 @@ def run(chk: core.Check, replay=None) -> None:
         info = raw[tid]
         chk.violation(clause, {"source": "real", "rising_branch": info["rising_branch"]}, info)
     chk.sample({"real_call": next(iter(raw.values()))})
-    chk.require_strata(["beyond", "rising", "on_grid", "off_grid", "monotone_pairs", "real_rising", "real_falling", "real_beyond", "rows_redisplayed", "rows_as_built", "real_rows_redisplayed", "asked_under_non_default_preferences", "range_as_bare_number", "look_alike_questions_asked_first"])
+    chk.require_strata(["beyond", "rising", "on_grid", "off_grid", "monotone_pairs", "real_rising", "real_falling", "real_beyond", "rows_redisplayed", "rows_as_built", "real_rows_redisplayed", "asked_under_non_default_preferences", "range_as_bare_number", "look_alike_questions_asked_first", "another_denser_result_asked_just_before"])
     chk.rule.append(f"every drop sequence of length<=%d over 0..%d x target row x half-height in %s (TLC Gen_DangerSpace), on- and "
                     f"off-grid ranges; plus seeded real extra-data trajectories x targets x heights; non-trivial = >=3 rows and "
                     f"target inside the trajectory" % (maxlen, maxdrop, halves))
